@@ -772,6 +772,39 @@ def rt_shapes_grid(first_only=False, count=None, only=None):
     for inner, target in (((1,), ()), ((4,), (2, 2)), ((2, 3), (6,)), ((2, 3), None), ((1, 1), ())):
         for icond, tcond in ((None, None), ((1,), ()), ((4,), (2, 2)), ((3,), None)):
             cases.append(("Reshape", dict(inner=inner, target=target, icond=icond, tcond=tcond)))
+    # incompatible children must be REJECTED by the constructor (oracle: numpy's own concatenate / stack on zero arrays)
+    import flowjax.bijections as B
+    rej_shapes = [(2,), (3,), (2, 3), (2, 4), (3, 3), (2, 1), (1, 2), (2, 3, 2), (2, 3, 4), (2,) * 0]
+    for s0, s1 in _it.product(rej_shapes, rej_shapes):
+        for cls_name in ("Concatenate", "Stack", "Chain"):
+            if only and cls_name != only:
+                continue
+            axes = range(-max(len(s0), 1), max(len(s0), 1)) if cls_name == "Concatenate" else (range(-(len(s0) + 1), len(s0) + 1) if cls_name == "Stack" else [None])
+            for axis in axes:
+                try:
+                    if cls_name == "Concatenate":
+                        np.concatenate([np.zeros(s0), np.zeros(s1)], axis)
+                        compatible = True
+                    elif cls_name == "Stack":
+                        np.stack([np.zeros(s0), np.zeros(s1)], axis)
+                        compatible = True
+                    else:
+                        compatible = s0 == s1
+                except Exception:  # noqa: BLE001
+                    compatible = False
+                if compatible:
+                    continue
+                n += 1
+                try:
+                    if cls_name == "Chain":
+                        B.Chain([_ident(s0), _ident(s1)])
+                    else:
+                        getattr(B, cls_name)([_ident(s0), _ident(s1)], axis=axis)
+                    fails.append(dict(what=f"{cls_name} of children with shapes {s0} and {s1}" + (f" along axis {axis}" if axis is not None else "") + " was accepted; the shapes are incompatible and the constructor documents a rejection", case=dict(cls=cls_name, s0=list(s0), s1=list(s1), axis=axis)))
+                    if first_only:
+                        return fails
+                except Exception:  # noqa: BLE001
+                    pass
     for cls, kw in cases:
         if only and cls != only:
             continue
@@ -1413,6 +1446,35 @@ def rt_c12(tier="quick", first_only=False, count=None):
     want_w = np.where(np.asarray(mask), [0.5, 1.5, 2.5], -1.0)
     if not np.allclose(np.asarray(u["w"][0]), want_w) or not np.allclose(np.asarray(u["l"][0]), 2 * np.array([0.5, 1.5, 2.5]) + 1.0):
         add(f"nested wrappers unwrap to {np.asarray(u['w'][0]).tolist()} / {np.asarray(u['l'][0]).tolist()}")
+    # leaves marked non-trainable are not parameterised by coupling / autoregressive conditioners
+    kk = jr.PRNGKey(2)
+    for lname, mk in (("Coupling", lambda tr: B.Coupling(kk, transformer=tr, untransformed_dim=1, dim=3, nn_width=4, nn_depth=1)), ("Coupling(cond)", lambda tr: B.Coupling(kk, transformer=tr, untransformed_dim=1, dim=3, cond_dim=2, nn_width=4, nn_depth=1)),
+                      ("MaskedAutoregressive", lambda tr: B.MaskedAutoregressive(kk, transformer=tr, dim=3, nn_width=4, nn_depth=1))):
+        for tname, tr, n_train, frozen in (("Affine(loc frozen)", eqx.tree_at(lambda a: a.loc, B.Affine(), replace=NonTrainable(jnp.array(3.25))), 1, "loc"),
+                                         ("Affine(scale frozen)", eqx.tree_at(lambda a: a.scale, B.Affine(0.0, 2.0), replace_fn=NonTrainable), 1, "scale"),
+                                         ("Affine(all frozen)", non_trainable(B.Affine(0.5, 2.0)), 0, "all"), ("Affine", B.Affine(), 2, None)):
+            n += 1
+            try:
+                layer = _perturb(mk(tr), 4, scale=0.5)
+            except Exception as ex:  # noqa: BLE001
+                add(f"{lname} with transformer {tname}: constructor raised {type(ex).__name__}: {str(ex)[:120]}", layer=lname, transformer=tname)
+                continue
+            net = layer.conditioner if lname.startswith("Coupling") else layer.masked_autoregressive_mlp
+            dims = 2 if lname.startswith("Coupling") else 3
+            out = int(np.asarray(unwrap(net).layers[-1].weight).shape[0])
+            if out != n_train * dims:
+                add(f"{lname} with transformer {tname}: the conditioner produces {out} outputs = {out / dims:g} parameters per transformed dimension, but the transformer has {n_train} trainable parameter(s): frozen leaves are being parameterised", layer=lname, transformer=tname)
+                continue
+            if frozen == "loc":
+                c = None if layer.cond_shape is None else jnp.array([0.3, -0.2])
+                for x0 in (jnp.array([0.7, 0.0, 0.0]), jnp.array([-1.3, 0.0, 0.0])):
+                    y = np.asarray(layer.transform(x0, c))
+                    tail = y[1:]  # coordinates whose input is 0 (coordinate 0 carries the conditioning value)
+                    if not np.allclose(tail, 3.25, atol=1e-9):
+                        add(f"{lname} with a frozen loc=3.25: transform({np.asarray(x0).tolist()}) = {y.tolist()}; the transformed coordinates at x=0 must equal the frozen loc whatever the conditioning input", layer=lname, transformer=tname)
+                        break
+        if first_only and fails:
+            return fails
     # methods give the same result on pre-unwrapped objects
     key = jr.PRNGKey(0)
     flow = _perturb(Fl.masked_autoregressive_flow(key, base_dist=Dm.Normal(jnp.zeros(2), jnp.ones(2)), flow_layers=2, nn_width=8), 3)
@@ -1508,6 +1570,36 @@ def rt_c14(tier="quick", first_only=False, count=None, only=None):
     fails, n = [], 0
     rng = np.random.default_rng(0)
     zoo = bijection_zoo()
+    # call-history independence: in a fresh process the FIRST use of every method is under jit, the eager call comes second
+    # (a value memoised during a trace would leak a tracer into the eager call)
+    rng0 = np.random.default_rng(3)
+    for name, b, cd in zoo:
+        if only and only not in name:
+            continue
+        x0 = jnp.asarray(rng0.normal(size=b.shape)) * 0.3
+        c0 = None if cd is None else jnp.asarray(rng0.normal(size=(cd,)))
+        for meth in ("transform_and_log_det", "transform", "inverse_and_log_det", "inverse"):
+            if meth.startswith("inverse") and (name in ("BlockAutoregressiveNetwork",) and tier == "quick"):
+                continue
+            f = getattr(b, meth)
+            n += 1
+            try:
+                first = eqx.filter_jit(f)(x0, c0)
+            except NotImplementedError:
+                continue
+            except Exception as ex:  # noqa: BLE001
+                fails.append(dict(what=f"{name}.{meth}: first call under jit failed: {type(ex).__name__}: {str(ex)[:150]}", case=dict(obj=name, method=meth, order="jit-first")))
+                continue
+            try:
+                second = f(x0, c0)
+                third = jax.vmap(lambda v: f(v, c0))(jnp.stack([x0, x0]))
+            except Exception as ex:  # noqa: BLE001
+                fails.append(dict(what=f"{name}.{meth}: a call AFTER a jitted first call failed ({type(ex).__name__}: {str(ex)[:150]}): the result depends on call history", case=dict(obj=name, method=meth, order="jit-first")))
+                continue
+            if any(not np.allclose(np.asarray(p), np.asarray(q), rtol=1e-9, atol=1e-12, equal_nan=True) for p, q in zip(jax.tree_util.tree_leaves(first), jax.tree_util.tree_leaves(second))):
+                fails.append(dict(what=f"{name}.{meth}: eager call after a jitted first call returns different values", case=dict(obj=name, method=meth, order="jit-first")))
+        if first_only and fails:
+            return fails
     for name, b, cd in zoo:
         if only and only not in name:
             continue
